@@ -217,7 +217,7 @@ def c13_case(seed, k):
     inputs = gen.gen_inputs(rng, g, n_derived=3, n_mut=2, n_rand=2, maxlen=8)[:8]
     referenced = sorted({x for r in g["rules"] for x in gen.refs_of(r["def"], set())})
     # ONE kind of mutation per case (each kind has its own invalidation site), rotating with the case index
-    kind = ["redefine", "extend", "flag", "exclude", "construct", "mixed"][k % 6]
+    kind = ["redefine", "extend", "flag", "exclude", "construct", "mixed", "exclude2", "load_fail", "load_ok"][k % 9]
     muts = []
     for _ in range(rng.randint(1, 2)):
         kd = rng.choice(["redefine", "extend", "flag", "exclude", "construct"]) if kind == "mixed" else kind
@@ -230,6 +230,23 @@ def c13_case(seed, k):
             else:
                 nd = ["lit", 0, "a"]
             muts.append([kd, tgt, nd])
+        elif kd == "exclude2":
+            # an exclusion is already in place BEFORE the warm-up (set up by run_c13 from "pre_excl"); the mutation
+            # replaces it by a rule of the SAME NAME that lives in ANOTHER grammar class and accepts other strings
+            other = rng.choice([n for n in names if n != tgt] or names)
+            alt_def = ["alt", 0, [["lit", 0, "".join(rng.choice(g["alpha"]) for _ in range(rng.randint(1, 2)))],
+                                  ["rep", 1, 2, ["lit", 0, rng.choice(g["alpha"])]]]]
+            muts.append(["exclude2", tgt, other, alt_def])
+            break
+        elif kd in ("load_fail", "load_ok"):
+            for _ in range(50):
+                nd = gen.gen_expr(rng, 2, names, g["alpha"])
+                if renderable(nd):
+                    break
+            else:
+                nd = ["lit", 0, "a"]
+            muts.append([kd, tgt, nd])
+            break
         elif kd == "flag":
             alts = [r["name"] for r in g["rules"] if r["def"][0] == "alt"]
             if not alts:
@@ -242,8 +259,25 @@ def c13_case(seed, k):
     return {"seed": seed, "index": k, "grammar": g, "inputs": inputs, "muts": muts}
 
 
+PREBUILT = {}
+
+
 def apply_mut(cls, objs, m, rng):
     kind = m[0]
+    if kind == "exclude2":
+        # the same-named rule of ANOTHER class was built before the warm-up (building a rule bumps the epoch)
+        objs[m[1]].exclude_rule(PREBUILT[id(m)])
+        return
+    if kind in ("load_fail", "load_ok"):
+        # a rulelist through load_grammar: first rule redefines the target; with load_fail a LATER rule raises in the
+        # visitor (=/ on an undefined rule), after the first rule has been installed
+        text = render_rule(rng, m[1], m[2]) + "\n" + ("zz-undefined =/ \"c\"\n" if kind == "load_fail" else "zz-extra = \"c\"\n")
+        try:
+            cls.load_grammar(text)
+        except Exception:  # noqa: BLE001
+            if kind != "load_fail":
+                raise
+        return
     if kind == "redefine":
         cls.create(render_rule(rng, m[1], m[2]))
     elif kind == "extend":
@@ -261,7 +295,7 @@ def final_ast(g, muts):
     rules = {r["name"]: {"name": r["name"], "def": json.loads(json.dumps(r["def"])), "excl": r.get("excl")} for r in g["rules"]}
     for m in muts:
         r = rules[m[1]]
-        if m[0] in ("redefine", "construct"):
+        if m[0] in ("redefine", "construct", "load_fail", "load_ok"):
             r["def"] = m[2]
         elif m[0] == "extend":
             r["def"] = ["alt", 0, [r["def"], m[2]]]
@@ -270,6 +304,8 @@ def final_ast(g, muts):
                 r["def"][1] = m[2]
         elif m[0] == "exclude":
             r["excl"] = m[2]
+        elif m[0] == "exclude2":
+            r["excl2"] = [m[2], m[3]]
     return {"rules": list(rules.values()), "alpha": g["alpha"]}
 
 
@@ -286,7 +322,18 @@ def run_c13(cases):
             # the twin (built directly in the final state) is built FIRST: constructing rules bumps the global cache
             # epoch, which would hide stale entries if it happened between the mutation and the probes
             tcls, tobjs = pyimpl.build_grammar(fa)
+            for r in fa["rules"]:
+                if r.get("excl2"):
+                    oc = pyimpl.fresh_class()
+                    oc(r["excl2"][0], pyimpl.build_expr(oc, r["excl2"][1]))
+                    tobjs[r["name"]].exclude_rule(oc(r["excl2"][0]))
             cls, objs = pyimpl.build_grammar(g)
+            for m in c["muts"]:
+                if m[0] == "exclude2":
+                    objs[m[1]].exclude_rule(objs[m[2]])     # the exclusion in force during the warm-up (same name, own class)
+                    other_cls = pyimpl.fresh_class()
+                    other_cls(m[2], pyimpl.build_expr(other_cls, m[3]))
+                    PREBUILT[id(m)] = other_cls(m[2])
             names = [r["name"] for r in g["rules"]]
             before = {}
             with pyimpl.time_limit(5.0):
@@ -374,15 +421,32 @@ class Stepper:
         ParseCache.__getitem__, ParseCache.__setitem__ = gi, si
         self.restore = lambda: (setattr(ParseCache, "__getitem__", og), setattr(ParseCache, "__setitem__", os_))
 
-    def run(self, thunks, schedule):
-        """schedule: list of thread indices; a thread not scheduled again is released at the end"""
+    def run(self, thunks, schedule, line_level=False):
+        """schedule: list of thread indices; a thread not scheduled again is released at the end.
+        line_level: additionally stop before every LINE executed inside a ParseCache method (pre-emption inside
+        __getitem__/__setitem__/_drop_stale, below the granularity the model covers)"""
         results = [None] * len(thunks)
+        cache_codes = {f.__code__ for f in vars(ParseCache).values() if hasattr(f, "__code__")}
+        st = self
+
+        def tracer(frame, event, arg):
+            if frame.f_code in cache_codes:
+                def local(frame, event, arg):
+                    if event == "line":
+                        st.gate()
+                    return local
+                return local
+            return None
 
         def worker(k):
             self.local.idx = k
+            if line_level:
+                sys.settrace(tracer)
             try:
                 results[k] = thunks[k]()
             finally:
+                if line_level:
+                    sys.settrace(None)
                 with self.cv:
                     self.done.add(k)
                     self.cv.notify_all()
@@ -437,10 +501,49 @@ def c17_case(seed, k):
             "sched_seed": rng.randint(0, 10**9)}
 
 
+def line_level_fixed(stats, mism):
+    """hand-made scenarios for the race through a stale cache: warm-up, public mutation, then two threads issue the same
+    request; ALL single-pre-emption schedules at LINE level inside the ParseCache methods"""
+    L = lambda t: ["lit", 0, t]  # noqa: E731
+    scen = [
+        ({"rules": [{"name": "top", "def": ["rep", 1, None, ["ref", "item"]], "excl": None}, {"name": "item", "def": L("a"), "excl": None}],
+          "alpha": ["a", "b"]}, (1, "top", "aab", 0), "item", 'item = "a" / "b"', ["alt", 0, [L("a"), L("b")]]),
+        ({"rules": [{"name": "top", "def": ["cat", [["opt", ["ref", "item"]], L("c")]], "excl": None}, {"name": "item", "def": L("a"), "excl": None}],
+          "alpha": ["a", "b", "c"]}, (0, "top", "bc", 0), "item", 'item = "b"', L("b")),
+        ({"rules": [{"name": "top", "def": ["rep", 0, 3, ["cat", [["ref", "item"], ["rep", 0, None, L("-")]]]], "excl": None},
+                    {"name": "item", "def": L("a"), "excl": None}], "alpha": ["a", "b", "-"]},
+         (2, "top", "a-b-a", 0), "item", 'item = "a" / "b"', ["alt", 0, [L("a"), L("b")]]),
+    ]
+    for g, q, tgt, text, newdef in scen:
+        fa = {"rules": [dict(r, **({"def": newdef} if r["name"] == tgt else {})) for r in g["rules"]], "alpha": g["alpha"]}
+        tcls, tobjs = pyimpl.build_grammar(fa)
+        want = req_impl(tobjs, *q)
+        for x in (0, 1):
+            for k in range(30):
+                sch = [x] * k + [1 - x] * 120 + [x] * 120
+                cls, objs = pyimpl.build_grammar(g)
+                req_impl(objs, *q)              # warm-up under the OLD grammar
+                cls.create(text)                # public mutation
+                stp = Stepper()
+                stp.install()
+                try:
+                    res, steps = stp.run([(lambda: req_impl(objs, *q)), (lambda: req_impl(objs, *q))], sch, line_level=True)
+                finally:
+                    stp.restore()
+                stats["line_level_schedules"] = stats.get("line_level_schedules", 0) + 1
+                for r in res:
+                    if r != want:
+                        mism.append({"class": "interleaving-after-mutation(line-level)", "request": q, "schedule": f"thread {x} runs {k} steps, then the other thread completes",
+                                     "mutation": text, "got": (r or "None")[:300], "sequential_on_new_grammar": want[:300],
+                                     "case": {"grammar": g}})
+                        return
+
+
 def run_c17(cases, exhaustive_upto=7):
     mism, stats = [], {"schedules": 0, "steps": 0, "exhaustive_cases": 0, "random_schedules": 0, "requests": 0,
                        "generator_scripts": 0, "stress_runs": 0}
     distinct = set()
+    line_level_fixed(stats, mism)
     for c in cases:
         g = c["grammar"]
         # sequential reference on a cold twin
@@ -510,6 +613,46 @@ def run_c17(cases, exhaustive_upto=7):
                 if r != want:
                     mism.append({"class": "interleaving", "request": q, "schedule": sch, "limit": c["limit"],
                                  "got": (r or "None")[:500], "sequential": want[:500], "case": c})
+        # after a grammar change: the first accesses to every cache find it stale; two threads race through
+        # ParseCache._drop_stale, pre-empted at LINE level inside the cache methods
+        refd = sorted({x for r in g["rules"] for x in gen.refs_of(r["def"], set())})
+        if refd and stats.get("line_level_cases", 0) < 8:
+            tgt = rng.choice(refd)
+            newdef = ["alt", 0, [["lit", 0, rng.choice(g["alpha"])], ["lit", 0, rng.choice(g["alpha"]) + rng.choice(g["alpha"])]]]
+            fa = {"rules": [dict(r, **({"def": newdef} if r["name"] == tgt else {})) for r in g["rules"]], "alpha": g["alpha"]}
+            if gen.wf(fa) and renderable(newdef):
+                try:
+                    with pyimpl.time_limit(2.0):
+                        tcls, tobjs = pyimpl.build_grammar(fa)
+                        ref2 = [req_impl(tobjs, *q) for q in c["reqs"]]
+                except pyimpl.SlowCase:
+                    ref2 = None
+                if ref2 is not None and not any(r == "REC" for r in ref2):
+                    stats["line_level_cases"] = stats.get("line_level_cases", 0) + 1
+                    # ALL single-pre-emption schedules: thread X runs k line-level steps, then the other thread runs to
+                    # completion, then X finishes (k = 0..24, both orders), plus a few random ones; both threads issue
+                    # the SAME request so that they race for the same stale caches
+                    same = [c["reqs"][0], c["reqs"][0]]
+                    ref_same = [ref2[0], ref2[0]]
+                    scheds = [[x] * k + [1 - x] * 80 + [x] * 80 for x in (0, 1) for k in range(25)]
+                    scheds += [[rng.randrange(2) for _ in range(80)] for _ in range(6)]
+                    for sch in scheds:
+                        cls, objs = pyimpl.build_grammar(g)
+                        for q in same:
+                            req_impl(objs, *q)                       # warm-up under the OLD grammar
+                        cls.create(render_rule(rng, tgt, newdef))     # public mutation: every cache is now stale
+                        stp = Stepper()
+                        stp.install()
+                        try:
+                            thunks = [(lambda q=q: req_impl(objs, *q)) for q in same]
+                            res, steps = stp.run(thunks, sch, line_level=True)
+                        finally:
+                            stp.restore()
+                        stats["line_level_schedules"] = stats.get("line_level_schedules", 0) + 1
+                        for q, r, want in zip(same, res, ref_same):
+                            if r != want:
+                                mism.append({"class": "interleaving-after-mutation(line-level)", "request": q, "schedule": sch,
+                                             "mutation": [tgt, newdef], "got": (r or "None")[:400], "sequential_on_new_grammar": want[:400], "case": c})
         # generator interleaving / abandonment: results listed by partially consumed generators
         cls, objs = pyimpl.build_grammar(g)
         gens = []
